@@ -225,7 +225,7 @@ pub fn check_c09_ledger(l: &Ledger) -> Vec<Violation> {
         _ => None,
     };
     let raw_key: Option<Vec<u8>> = match &l.cfg.mech {
-        Mech::ShortTerm(_) => Some(l.cfg.password.as_bytes().to_vec()),
+        Mech::ShortTerm(_) => Some(l.cfg.pw().into_bytes()),
         _ => None,
     };
     for st in &l.steps {
@@ -462,14 +462,14 @@ pub fn harvest(spec: &PropSpec, seed: u64, want: usize, need_integrity: bool) ->
                 }
                 // key under which the message is protected
                 let (raw_key, keyspec) = match &l.cfg.mech {
-                    Mech::ShortTerm(_) => (l.cfg.password.as_bytes().to_vec(), ("st".to_string(), String::new(), String::new(), l.cfg.password.clone(), false)),
+                    Mech::ShortTerm(_) => (l.cfg.pw().into_bytes(), ("st".to_string(), String::new(), String::new(), l.cfg.password.clone(), false)),
                     Mech::LongTerm => {
                         let (ctx, _) = track.at(st.idx);
                         let Some(c) = ctx else { continue };
                         // try both algorithms: keep the one under which the message verifies
                         let mut pick = None;
                         for sha in [false, true] {
-                            let k = wire::long_term_key(if sha { wire::ALG_SHA256 } else { wire::ALG_MD5 }, &l.cfg.user, &c.realm, &l.cfg.password);
+                            let k = wire::long_term_key(if sha { wire::ALG_SHA256 } else { wire::ALG_MD5 }, &l.cfg.user, &c.realm, &l.cfg.pw());
                             let t = if p.count(wire::A_MI256) > 0 { wire::A_MI256 } else { wire::A_MI };
                             if wire::verify_integrity(b, &p, t, &k) == Verdict::Good {
                                 pick = Some((k, sha));
